@@ -41,6 +41,7 @@ type evalEnv struct {
 	old     *State
 	names   func(name string, e *evalEnv) (tv, bool)
 	bound   map[string]tv
+	atCallSite bool // evaluating a callee's contract at a call site (own-proof-only builtins are not available)
 	pkg     *types.Package
 	entryNext string // allocation stamp at entry (for fresh())
 	inOld   bool
@@ -816,6 +817,142 @@ func (e *evalEnv) call(x *ast.CallExpr) tv {
 				}
 			}
 			return tv{term: fmt.Sprintf("(= (itag %s) %d)", v.term, g.tag(t)), typ: tBool}
+		case "called":
+			// called("F"): the function under verification has called F on this path
+			if e.atCallSite {
+				panic(ownProofOnly{})
+			}
+			if e.a == nil || len(x.Args) != 1 {
+				e.fail(x, "called(\"F\")")
+			}
+			top := e.a
+			for top.parent != nil {
+				top = top.parent
+			}
+			rec := top.lastCall[qualifyKey(stringLit(x.Args[0]), e.pkg.Name())]
+			if rec == nil {
+				return tv{term: "false", typ: tBool}
+			}
+			if rec.ambiguous {
+				return tv{term: g.havoc(e.a.nm("called"), "Bool"), typ: tBool}
+			}
+			return tv{term: rec.reach, typ: tBool}
+		case "callarg", "callresult":
+			// callarg("F", i) / callresult("F", i): the i-th argument (receiver first) / result of the call of F made by the
+			// function under verification (which must have one call site of F); arbitrary when no such call was made
+			if e.atCallSite {
+				panic(ownProofOnly{})
+			}
+			if e.a == nil || len(x.Args) != 2 {
+				e.fail(x, "%s(\"F\", i)", id.Name)
+			}
+			fname := qualifyKey(stringLit(x.Args[0]), e.pkg.Name())
+			bl, ok := x.Args[1].(*ast.BasicLit)
+			if !ok || bl.Kind != token.INT {
+				e.fail(x, "%s: constant index expected", id.Name)
+			}
+			i, _ := strconv.Atoi(bl.Value)
+			top := e.a
+			for top.parent != nil {
+				top = top.parent
+			}
+			rec := top.lastCall[fname]
+			var fn *ssa.Function
+			if rec != nil {
+				fn = rec.fn
+				if rec.ambiguous {
+					// more than one call site: which call is meant is not defined, nothing is known about the value
+					g.note("%s(%s): more than one call site, value arbitrary", id.Name, fname)
+					rec = nil
+				}
+			} else {
+				for f := range g.eng.allFns {
+					if shortFn(f) == fname {
+						fn = f
+					}
+				}
+			}
+			if fn == nil {
+				e.fail(x, "no function %s", fname)
+			}
+			var t types.Type
+			if id.Name == "callarg" {
+				if i < 0 || i >= len(fn.Params) {
+					e.fail(x, "%s has no argument %d", fname, i)
+				}
+				t = fn.Params[i].Type()
+				if rec != nil {
+					return tv{term: rec.args[i], typ: t}
+				}
+			} else {
+				rs := fn.Signature.Results()
+				if i < 0 || i >= rs.Len() {
+					e.fail(x, "%s has no result %d", fname, i)
+				}
+				t = rs.At(i).Type()
+				if rec != nil && rec.res != nil {
+					if tup, ok := top.tuples[rec.res]; ok {
+						return tv{term: tup[i], typ: t}
+					}
+					if v, ok := top.env[rec.res]; ok && rs.Len() == 1 {
+						return tv{term: v, typ: t}
+					}
+				}
+			}
+			return tv{term: g.havoc(e.a.nm("nocall"), g.sortOf(t)), typ: t}
+		case "closureOf", "captured":
+			// closureOf(v, "F$1"): the function value v is a closure of the anonymous function F$1 created in this proof
+			// context; captured(v, "F$1", "x"): the value of its captured variable x (arbitrary when v is no such closure)
+			if e.atCallSite {
+				panic(ownProofOnly{})
+			}
+			if e.a == nil || len(x.Args) < 2 {
+				e.fail(x, "%s(v, \"Fn$1\"[, \"var\"])", id.Name)
+			}
+			v := e.value(e.eval(x.Args[0]))
+			fname := qualifyKey(stringLit(x.Args[1]), e.pkg.Name())
+			ci := e.a.resolveClosure(v.term, fname)
+			if id.Name == "closureOf" {
+				if ci == nil {
+					return tv{term: "false", typ: tBool}
+				}
+				return tv{term: "true", typ: tBool}
+			}
+			if len(x.Args) != 3 {
+				e.fail(x, "captured(v, \"Fn$1\", \"var\")")
+			}
+			vname := stringLit(x.Args[2])
+			var fn *ssa.Function
+			if ci != nil {
+				fn = ci.fn
+			} else {
+				for f := range g.eng.allFns {
+					if shortFn(f) == fname {
+						fn = f
+					}
+				}
+			}
+			if fn == nil {
+				e.fail(x, "no function %s", fname)
+			}
+			for i, fv := range fn.FreeVars {
+				if fv.Name() != vname {
+					continue
+				}
+				pt, ok := fv.Type().Underlying().(*types.Pointer)
+				if !ok {
+					e.fail(x, "captured variable %s of %s is not a cell", vname, fname)
+				}
+				if ci == nil {
+					return tv{term: g.havoc(e.a.nm("nocapture_"+vname), g.sortOf(pt.Elem())), typ: pt.Elem()}
+				}
+				b := ci.bindings[i]
+				if c, ok := g.constCell[b]; ok {
+					return tv{term: c, typ: pt.Elem()}
+				}
+				return e.fromAddr(pt.Elem(), fmt.Sprintf("(pref %s)", b), fmt.Sprintf("(poff %s)", b))
+			}
+			e.fail(x, "%s captures no variable %s", fname, vname)
 		case "sameSlice":
 			l, r := e.value(e.eval(x.Args[0])), e.value(e.eval(x.Args[1]))
 			return tv{term: fmt.Sprintf("(= %s %s)", l.term, r.term), typ: tBool}
@@ -1510,7 +1647,7 @@ type callSite struct {
 func (cs *callSite) env(st *State, old *State) *evalEnv {
 	a := cs.a
 	g := a.g
-	e := &evalEnv{g: g, a: a, st: st, old: old, bound: map[string]tv{}, entryNext: cs.pre.Next}
+	e := &evalEnv{g: g, a: a, st: st, old: old, bound: map[string]tv{}, entryNext: cs.pre.Next, atCallSite: true}
 	e.pkg = g.eng.pkgByPath(cs.ct.PkgPath)
 	sig := g.eng.signatureFor(cs.ct, cs.fn)
 	names := func(name string, e *evalEnv) (tv, bool) {
@@ -1688,3 +1825,52 @@ func (cs *callSite) modRefs(st *State) []string {
 }
 
 var specAppRe = regexp.MustCompile(`\((spec_[A-Za-z0-9_]+) `)
+
+func stringLit(x ast.Expr) string {
+	if bl, ok := x.(*ast.BasicLit); ok && bl.Kind == token.STRING {
+		if v, err := strconv.Unquote(bl.Value); err == nil {
+			return v
+		}
+	}
+	panic(contractError{"string literal expected"})
+}
+
+// resolveClosure: the closure of function fname (short name) that the function value v provably is in the current
+// context, or nil.
+func (a *Act) resolveClosure(v string, fname string) *closureInfo {
+	g := a.g
+	if ci := g.closures[v]; ci != nil {
+		if shortFn(ci.fn) == fname {
+			return ci
+		}
+		return nil
+	}
+	var names []string
+	for n, ci := range g.closures {
+		if shortFn(ci.fn) == fname {
+			names = append(names, n)
+		}
+	}
+	sort.Strings(names)
+	reach := a.curReach
+	if reach == "" {
+		reach = "true"
+	}
+	seen := map[*closureInfo]bool{}
+	for _, n := range names {
+		ci := g.closures[n]
+		if seen[ci] {
+			continue
+		}
+		seen[ci] = true
+		if g.provable(reach, fmt.Sprintf("(= %s %s)", v, n)) {
+			return ci
+		}
+	}
+	return nil
+}
+
+// ownProofOnly: a clause that talks about the calls made or the closures created by the function it belongs to
+// (called, callarg, callresult, closureOf, captured) means something only while that function is verified; where the
+// function's contract is used at a call site such a clause is not handed to the caller.
+type ownProofOnly struct{}
